@@ -351,6 +351,14 @@ def excluded_known(case):
     if o['auto_prompt_reset'] or o['sync_original_prompt']:
         return False
     steps = case['steps']
+    # second facet of the same finding: with both checks off, banner text containing '$' or '#' is taken for the
+    # prompt and login() returns True wherever the dialogue happens to be - also when it would have reached a shell
+    # a few steps later
+    for k_, x in enumerate(steps[:-1]):
+        if x[0] in ('denied', 'closed', 'exit'):
+            break
+        if x[0] == 'banner' and re.search(r'[#$]', x[1]) and k_ < len(steps) - 2:
+            return True
     if steps[-1][0] == 'shell':
         return False
     tricky_first = False
